@@ -724,6 +724,10 @@ func runC14(tier string, seed uint64, o *Out) error {
 		}
 		o.Count(fmt.Sprintf("rows_%d0s", len(jobs[i].rows)/10))
 	}
+	// second family: several select items, general wrappers, WHERE combining a column test and an analytic call
+	if err := runC14M(tier, rng, o); err != nil {
+		return err
+	}
 	// key lines last: the driver reports only the first 200 bad lines, and the query lines are the ones the
 	// declarative checker can turn into a concrete failing input
 	c14Keys(rng, o, nk)
